@@ -21,7 +21,8 @@ contract('saml2_tophat.pack:http_form_post_message',
               "contains(str_of(result['data']), concat('value=' + Q, html_escape(%s), Q))" % _MSG64),
              ('C14-relay-state-is-one-escaped-value',
               "implies(truthy(relay_state), contains(str_of(result['data']), "
-              "concat('name=' + Q + 'RelayState' + Q + ' value=' + Q, html_escape(str_of(relay_state)), Q)))")],
+              "concat('name=' + Q + 'RelayState' + Q + ' value=' + Q, html_escape(str_of(relay_state)), Q)))"),
+             ('fresh-result', 'fresh(result)')],
          lets={'Q': "'\\x22'"},
          raises={'UnicodeDecodeError': 'True'}, modifies=[],
          clauses_from={'C14': ['C14-message-is-one-escaped-value', 'C14-relay-state-is-one-escaped-value']})
@@ -64,4 +65,21 @@ for _typ in ('SAMLRequest', 'SAMLResponse'):
              modifies=[],
              clauses_from={'C14': ['C14-unsigned-location'], 'C15': ['C15-signed-location']})
 contract('saml2_tophat.pack:http_redirect_message', trusted=True, variants=_variants,
+         note='dispatch stub for the constant message-type variants')
+
+# ------------------------------------------------------------------------------------------------ HTTP-POST without a form (C14)
+_pm_variants = {}
+for _typ in ('SAMLRequest', 'SAMLResponse'):
+    _vq = 'saml2_tophat.pack:http_post_message[%s]' % _typ
+    _pm_variants[('typ', _typ)] = _vq
+    contract(_vq, variant_of='saml2_tophat.pack:http_post_message', consts={'typ': _typ},
+             types={'message': 'Str', 'relay_state': 'Opt(Str)', 'kwargs': 'Dict(Str, Any)'}, returns='Dict(Str, Any)',
+             ensures=[('fresh', 'fresh(result)'),
+                      # C14: the body is one urlencoded k=v pair per parameter: the base64 of the message, then the RelayState
+                      ('C14-body-is-urlencoded-pairs',
+                       "str_of(result['data']) == concat(urlenc1('%s', utf8(unutf8(b64(utf8(str_of(message)))))), "
+                       "str_of(ite(truthy(relay_state), vstr(concat('&', urlenc1('RelayState', utf8(str_of(relay_state))))), vstr(''))))" % _typ)],
+             raises={'Exception': 'True'}, modifies=[], clauses_from={'C14': ['C14-body-is-urlencoded-pairs']})
+contract('saml2_tophat.pack:http_post_message', trusted=True, variants=_pm_variants, params=['message', 'relay_state', 'typ'],
+         defaults={'relay_state': '', 'typ': 'SAMLRequest'}, returns='Dict(Str, Any)',
          note='dispatch stub for the constant message-type variants')
